@@ -170,6 +170,21 @@ def generate(scratch, module, cfg, timeout=1800, workers=16):
     return out, r
 
 
+def apalache(scratch, module, inv, timeout=600):
+    """Symbolic check of a state invariant at length 0 (all initial states) with Apalache."""
+    d = spec_dir(scratch, "apalache-%s-%s" % (module, inv))
+    t0 = time.time()
+    try:
+        p = subprocess.run(["apalache-mc", "check", "--init=Init", "--next=Next", "--inv=" + inv, "--length=0", "--out-dir=" + os.path.join(d, "out"), module + ".tla"],
+                           cwd=d, capture_output=True, text=True, timeout=timeout)
+    except subprocess.TimeoutExpired:
+        raise Infra("Apalache timed out on %s/%s" % (module, inv))
+    if p.returncode != 0 or "EXITCODE: OK" not in p.stdout:
+        raise Infra("Apalache did not establish %s/%s:\n%s" % (module, inv, (p.stdout + p.stderr)[-1500:]))
+    log("[apalache] %s/%s: no error over all initial states, %.1fs" % (module, inv, time.time() - t0))
+    return dict(module=module, inv=inv, wall=round(time.time() - t0, 1))
+
+
 def judge_shard(args):
     scratch, module, shard_file, idx, xmx, timeout = args
     d = spec_dir(scratch, "judge-%s-%02d" % (module, idx))
